@@ -253,13 +253,38 @@ func TestVerifDynamic(t *testing.T) {
 			}
 		}
 	}
+	// two records that differ only by blanks inside a quoted value are two events; repeats
+	// that differ only by time stamp and pid are one
+	pair := func(a, b string) int {
+		return len(GetApparmorLogs(strings.NewReader(a+"\n"+b+"\n"), ""))
+	}
+	rec := func(ts, pid, name string) string {
+		return "type=AVC msg=audit(" + ts + "): apparmor=\"DENIED\" operation=\"open\" class=\"file\" profile=\"foo\" name=\"" + name + "\" pid=" + pid + " comm=\"cat\" requested_mask=\"r\" denied_mask=\"r\" fsuid=0 ouid=0"
+	}
+	for _, c := range []struct {
+		a, b string
+		want int
+	}{
+		{rec("1.1:1", "10", "/srv/My  Report.txt"), rec("1.1:1", "10", "/srv/My Report.txt"), 2},
+		{rec("1.1:1", "10", "/srv/a\tb"), rec("1.1:1", "10", "/srv/a b"), 2},
+		{rec("1.1:1", "10", "/srv/x"), rec("2.2:2", "11", "/srv/x"), 1},
+		{rec("1.1:1", "10", "/srv/x"), rec("1.1:1", "10", "/srv/y"), 2},
+	} {
+		evals++
+		if got := pair(c.a, c.b); got != c.want {
+			viol++
+			if first == "" {
+				first = fmt.Sprintf(" records %q and %q: %d reported, want %d", c.a, c.b, got, c.want)
+			}
+		}
+	}
 	fmt.Printf("VERIF_DYNAMIC evaluations=%d violations=%d%s\n", evals, viol, first)
 }
 `
 	r := runDynamic(env, "pkg/logs", "C14/GetApparmorLogs-filter-grammar", src)
 	r.Name = "bounded/C14/GetApparmorLogs-filter-grammar"
 	r.Kind, r.Backend = "bounded", "go test, exhaustive over the stated record grammar"
-	r.Detail = strings.Replace(r.Detail, "dynamic (not a proof)", "bounded stand-in (not a proof; grammar: 2 filters x 3 line prefixes x 6 statuses x 4 keys x 4 values, plus 10 paths (6 documented noise paths, 4 others) crossed with the first value and prefix)", 1)
+	r.Detail = strings.Replace(r.Detail, "dynamic (not a proof)", "bounded stand-in (not a proof; grammar: 2 filters x 3 line prefixes x 6 statuses x 4 keys x 4 values, plus 10 paths (6 documented noise paths, 4 others) crossed with the first value and prefix, plus 4 record pairs (blanks inside a value, time stamp and pid only, different names))", 1)
 	return r
 }
 
@@ -375,7 +400,7 @@ func TestVerifDynamic(t *testing.T) {
 		one += fmt.Sprintf("  /usr/bin/tool%d r%s,\n", i, tr)
 	}
 	one += "  /marker/one/b r,\n\n  profile sub {\n    /marker/one/c r,\n  }\n\n  /marker/one/d r,\n\n  include if exists <local/one>\n}\n"
-	two := "abi <abi/4.0>,\n\n@{exec_path} = /usr/bin/two\nprofile two @{exec_path} {\n  include <abstractions/base>\n\n  @{exec_path} mr,\n  /marker/two/a r,\n\n  include if exists <local/two>\n}\n"
+	two := "abi <abi/4.0>,\n\n@{exec_path} = /usr/bin/two\nprofile two @{exec_path} {\n  include <abstractions/base>\n\n  @{exec_path} mrix,\n  /marker/two/a r,\n\n  include if exists <local/two>\n}\n"
 	os.WriteFile(filepath.Join(dir, "one"), []byte(one), 0o644)
 	os.WriteFile(filepath.Join(dir, "two"), []byte(two), 0o644)
 	saved := prebuild.RootApparmord
@@ -604,8 +629,8 @@ func verifExpand(vars map[string][]string, s string, depth int) ([]string, error
 }
 
 func TestVerifDynamic(t *testing.T) {
-	vars := map[string][]string{"a": {"x", "y"}, "b": {"@{a}/1", "z"}, "c": {"/r/", "/s"}, "e": {"m", "n", "o"}, "f": {"@{g}/x"}, "g": {"@{h}/y", "/w"}, "h": {"/z"}}
-	inputs := []string{"@{f}", "/opt/@{f}/bin", "@{a}", "/p/@{a}", "@{a}/@{a}", "@{b}", "@{c}/q", "@{a}@{c}", "@{b}/@{a}", "/no/var", "@{c}@{c}", "@{e}", "/@{e}/@{a}/@{e}", "@{nope}/x", "@{a}/@{nope}", "@{s}"}
+	vars := map[string][]string{"a": {"x", "y"}, "b": {"@{a}/1", "z"}, "c": {"/r/", "/s"}, "e": {"m", "n", "o"}, "f": {"@{g}/x"}, "g": {"@{h}/y", "/w"}, "h": {"/z"}, "A": {"UP"}}
+	inputs := []string{"@{f}", "/opt/@{f}/bin", "@{A}/@{a}", "@{E}", "/lit//eral", "@{a}", "/p/@{a}", "@{a}/@{a}", "@{b}", "@{c}/q", "@{a}@{c}", "@{b}/@{a}", "/no/var", "@{c}@{c}", "@{e}", "/@{e}/@{a}/@{e}", "@{nope}/x", "@{a}/@{nope}", "@{s}"}
 	evals, viol := 0, 0
 	first := ""
 	for _, in := range inputs {
@@ -614,6 +639,8 @@ func TestVerifDynamic(t *testing.T) {
 		f.Preamble = append(f.Preamble, &Variable{Name: "b", Values: []string{"@{a}/1", "z"}, Define: true})
 		f.Preamble = append(f.Preamble, &Variable{Name: "c", Values: []string{"/r/", "/s"}, Define: true})
 		f.Preamble = append(f.Preamble, &Variable{Name: "e", Values: []string{"m"}, Define: true}, &Variable{Name: "e", Values: []string{"n", "o"}, Define: false})
+		// a variable whose name differs from another one only by case
+		f.Preamble = append(f.Preamble, &Variable{Name: "A", Values: []string{"UP"}, Define: true})
 		// a chain of forward references: each variable refers to one defined after it
 		f.Preamble = append(f.Preamble, &Variable{Name: "f", Values: []string{"@{g}/x"}, Define: true}, &Variable{Name: "g", Values: []string{"@{h}/y", "/w"}, Define: true}, &Variable{Name: "h", Values: []string{"/z"}, Define: true})
 		all := map[string][]string{}
@@ -644,7 +671,7 @@ func TestVerifDynamic(t *testing.T) {
 `
 	r := runDynamic(env, "pkg/aa", "C13/expansion-of-attachments", src)
 	r.Name = "bounded/C13/expansion-of-attachments"
-	r.Kind, r.Backend = "bounded", "go test, 16 attachment patterns over an eight-variable preamble"
-	r.Detail = strings.Replace(r.Detail, "dynamic (not a proof)", "bounded stand-in (not a proof; 16 attachment patterns: forward reference chains, nested, repeated and adjacent references, trailing slashes, +=, undefined and self-referential variables)", 1)
+	r.Kind, r.Backend = "bounded", "go test, 19 attachment patterns over a nine-variable preamble"
+	r.Detail = strings.Replace(r.Detail, "dynamic (not a proof)", "bounded stand-in (not a proof; 19 attachment patterns: forward reference chains, names differing by case, literal //, nested, repeated and adjacent references, trailing slashes, +=, undefined and self-referential variables)", 1)
 	return r
 }
